@@ -91,7 +91,7 @@ impl Part for WirePart {
         "sessions of 1..7 login attempts against the real binary: user ∈ {two cleartext-password users, one auth_query user whose hash the mock backend serves, one trust user, an unconfigured user, the admin user} × database ∈ {pool, unconfigured, admin} × response ∈ {correct, wrong password, correct for an earlier connection's salt, correct answer truncated to 0..35 bytes, another user's password, md5+garbage, cleartext, other message type, bogus length, trailing bytes, the rotated-away password, silence}, each followed by a pipelined tagged query; the backend password of the auth_query user may rotate between attempts; plain or TLS; admin md5 or trust. Oracle: AuthenticationOk iff the pair is configured and (trust or the response is md5(md5(pw+user)+salt of this connection) for the current password); no tag of an unauthenticated attempt is ever received by a backend; authenticated attempts get their query answered. Non-trivial = a well-formed but wrong response (replay, other user, truncation, old password)".into()
     }
     fn cases(&self, tier: Tier) -> u64 {
-        tier.pick(500, 15_000)
+        tier.pick(2_000, 30_000)
     }
     fn strategy(&self, _tier: Tier) -> BoxedStrategy<Case> {
         let step = prop_oneof![
